@@ -15,6 +15,7 @@ import logging
 import math
 import os
 import pickle
+import sys
 from numbers import Number
 
 import networkx as nx
@@ -226,7 +227,9 @@ class ExcelCompiler:
         if not is_json:
             with open(filename, 'w') as f:
                 ymlo = YAML()
-                ymlo.width = 120
+                # never fold a line: a fold next to a tab or to more than
+                # one space does not read back as the text that was written
+                ymlo.width = sys.maxsize
                 ymlo.dump(extra_data, f)
         else:
             with open(filename, 'w') as f:
